@@ -167,6 +167,42 @@ def oracle(state, t):
     raise ValueError("unknown op " + op)
 
 
+ALLOCATING = {"new", "sta", "dup", "ins", "insc", "app", "appd", "appc", "appch", "appmb", "b2h", "b64d", "b64e", "words"}
+NULL_ON_REFUSAL = {"new", "sta", "dup", "words", "lnew"}
+
+
+STATS = {"refused": 0, "partial": 0}
+
+
+def split_prefix(ln):
+    """'F2 appd 61' -> ('F2', ['appd', '61']);  no refusal plan -> (None, tokens)"""
+    t = ln.split(" ")
+    if len(t) > 1 and t[0][0] in "FA" and t[0][1:].isdigit():
+        return t[0], t[1:]
+    return None, t
+
+
+def outcomes(state, t, injected):
+    """the outcomes the property allows: the plain-sequence result, and - when an allocation of this
+    operation may have been refused - 'no effect, FALSE/NULL'.  The two base64 functions may apply partially."""
+    exp = oracle(state, t)
+    out = [exp]
+    if injected and t[0] in ALLOCATING:
+        s, st = state
+        if t[0] in NULL_ON_REFUSAL:
+            out.append((state, "null"))
+        elif st:
+            pass                                        # a static buffer is refused before any request
+        elif t[0] == "b64d":
+            out.append(((bytes(c for c in s if c not in WS), False), "F"))
+        elif t[0] == "b64e":
+            out.append((state, "F"))
+            out.append(((b"", False), "F"))             # contents deleted, then the append refused
+        else:
+            out.append((state, "F"))
+    return out
+
+
 def list_oracle(items, t):
     op = t[0]
     if op == "lnew":
@@ -250,8 +286,23 @@ BUF_OPS = ["len", "get", "set", "ins", "insc", "app", "appd", "appc", "appch", "
            "h2b", "b2h", "b64d", "b64e", "rtz", "dup", "new", "sta", "set", "ins", "del"]
 
 
-def gen_buffer_seq(r):
-    """one buffer operation sequence (list of lines); positions are chosen against the oracle's state"""
+def refusal_plan(r, op, nwords=0):
+    k = r.below(10)
+    if op == "words":
+        return r.choice(["F", "A"]) + str(r.range(1, 2 + 3 * nwords))
+    if k < 6:
+        return "F1"
+    if k < 8:
+        return "F2"
+    if k < 9:
+        return "A1"
+    return r.choice(["A2", "F3"])
+
+
+def gen_buffer_seq(r, inject=False):
+    """one buffer operation sequence (list of lines); positions are chosen against the oracle's state.
+    inject: allocating operations get a refusal plan (F<k> / A<k>) about every third time; the oracle's state
+    then follows the plain result, which is only a guide for choosing positions"""
     n_ops = r.range(1, 60)
     lines = []
     if r.chance(1, 7):
@@ -302,6 +353,10 @@ def gen_buffer_seq(r):
                 k = r.choice([0, 1, n - p, max(n - p - 1, 0), r.range(0, n - p)])     # pos + k <= len: the contract
             if st and p < n and p + k > n:
                 k = 0
+            if inject:
+                # the tracked state is only a guess once refusals are in play: keep to counts that are
+                # inside the documented contract whatever the real length is
+                k = r.choice([0, 1, 1])
             ln = "del %d %d" % (p, k)
         elif op in ("cmp", "cmpc"):
             k = r.below(6)
@@ -334,12 +389,19 @@ def gen_buffer_seq(r):
             ln = "%s %s %d" % (op, hx(nd), gen_pos(r, n) if r.chance(1, 2) else r.below(n + 1))
         else:
             raise ValueError(op)
-        lines.append(ln)
+        opname = ln.split(" ", 1)[0]
+        if inject and opname in ALLOCATING and r.chance(2, 5):
+            nw = len(re.findall(rb"[^ \t\n\x0b\x0c\r]+", s)) if opname == "words" else 0
+            lines.append(refusal_plan(r, opname, nw) + " " + ln)
+            if opname in ("new", "sta", "dup") or r.chance(1, 2):
+                continue                     # assume it was refused: the state the positions aim at is unchanged
+        else:
+            lines.append(ln)
         state, _ = oracle(state, ln.split(" "))
     return lines
 
 
-def gen_list_seq(r):
+def gen_list_seq(r, inject=False):
     n_ops = r.range(1, 60)
     lines = ["lnew"]
     items = []
@@ -360,7 +422,15 @@ def gen_list_seq(r):
         else:
             ln = "llen"
         nxt += 1
-        lines.append(ln)
+        if inject and ln.startswith(("lapp", "lins")) and r.chance(1, 3):
+            lines.append(r.choice(["F1", "A1", "F2"]) + " " + ln)
+            if r.chance(1, 2):
+                continue
+        elif inject and r.chance(1, 25):
+            lines.append(r.choice(["F1", "A1"]) + " lnew")
+            continue
+        else:
+            lines.append(ln)
         items, _ = list_oracle(items, ln.split(" "))
     return lines
 
@@ -404,6 +474,8 @@ def parse_answer(a):
     f = st.split(" ")
     if len(f) < 4:
         return None
+    if f[1] == "NODATA":
+        f[1] = "ff" * 0 + "--nodata--"
     return {"ret": ret, "len": int(f[0]), "hex": f[1], "term": f[2], "static": f[3], "extra": f[4:]}
 
 
@@ -414,7 +486,7 @@ def judge_buffer_seq(seq, c_ans, m_ans):
     ofail = cfail = None
     nmut = 0
     for i, ln in enumerate(seq):
-        t = ln.split(" ")
+        prefix, t = split_prefix(ln)
         ca = c_ans[i] if i < len(c_ans) else None
         ma = m_ans[i] if i < len(m_ans) else None
         pc = parse_answer(ca)
@@ -422,25 +494,35 @@ def judge_buffer_seq(seq, c_ans, m_ans):
             ofail = ofail or {"step": i, "op": ln, "c": ca, "why": "no answer from the C (crash / sanitizer report)"}
             break
         # the oracle is applied to the C's own previous contents
-        new_state, oret = oracle(state, t)
-        exp_hex = hx(new_state[0])
         why = None
-        if pc["ret"] != oret:
-            why = "return value"
-        elif pc["len"] != len(new_state[0]):
-            why = "length"
-        elif pc["hex"] != exp_hex:
-            why = "contents"
-        elif pc["static"] != ("1" if new_state[1] else "0"):
-            why = "static flag"
-        elif pc["term"] != "--" and pc["term"] != "00":
-            why = "byte after the contents is not NUL"
-        elif (not new_state[1]) and new_state[0] and pc["term"] == "--":
-            why = "dynamic non-empty buffer without storage"
+        for ci, (new_state, oret) in enumerate(outcomes(state, t, prefix is not None)):
+            exp_hex = hx(new_state[0])
+            w = None
+            if pc["ret"] != oret:
+                w = "return value"
+            elif pc["len"] != len(new_state[0]):
+                w = "length"
+            elif pc["hex"] != exp_hex:
+                w = "contents"
+            elif pc["static"] != ("1" if new_state[1] else "0"):
+                w = "static flag"
+            elif pc["term"] != "--" and pc["term"] != "00":
+                w = "byte after the contents is not NUL"
+            elif (not new_state[1]) and new_state[0] and pc["term"] == "--":
+                w = "dynamic non-empty buffer without storage"
+            if w is None:
+                why = None
+                if ci > 0:
+                    STATS["refused"] += 1
+                    if new_state != state:
+                        STATS["partial"] += 1
+                break
+            why = why or w
         if why and ofail is None:
-            ofail = {"step": i, "op": ln, "c": ca, "oracle": "%s | %d %s 00 %d" % (oret, len(new_state[0]), exp_hex, 1 if new_state[1] else 0),
-                     "why": why, "previous_contents": hx(state[0])}
-        if t[0] in MUTATING and new_state[0] != state[0]:
+            new_state, oret = outcomes(state, t, False)[0]
+            ofail = {"step": i, "op": ln, "c": ca, "oracle": "%s | %d %s 00 %d" % (oret, len(new_state[0]), hx(new_state[0]), 1 if new_state[1] else 0),
+                     "why": why + (" (and not a refusal without effect either)" if prefix else ""), "previous_contents": hx(state[0])}
+        if t[0] in MUTATING and pc["hex"] != "--nodata--" and unhx(pc["hex"]) != state[0]:
             nmut += 1
         # model vs C: the whole line, except that the presence of storage (-- against a terminator) is not compared
         if cfail is None and ma != ca:
@@ -453,6 +535,9 @@ def judge_buffer_seq(seq, c_ans, m_ans):
         if ofail is not None:
             break
         # continue from what the C actually holds
+        if pc["hex"] == "--nodata--":
+            ofail = ofail or {"step": i, "op": ln, "c": ca, "why": "len > 0 but data == NULL"}
+            break
         state = (unhx(pc["hex"]), pc["static"] == "1")
     return ofail, cfail, nmut
 
@@ -462,7 +547,7 @@ def judge_list_seq(seq, c_ans, m_ans):
     ofail = cfail = None
     nmut = 0
     for i, ln in enumerate(seq):
-        t = ln.split(" ")
+        prefix, t = split_prefix(ln)
         ca = c_ans[i] if i < len(c_ans) else None
         ma = m_ans[i] if i < len(m_ans) else None
         if ca is None or " | " not in ca:
@@ -470,6 +555,11 @@ def judge_list_seq(seq, c_ans, m_ans):
             break
         new_items, oret = list_oracle(items, t)
         exp = "%s | %d %s 1" % (oret, len(new_items), ",".join(map(str, new_items)) if new_items else "-")
+        if prefix and t[0] in ("lapp", "lins", "lnew") and ca != exp:
+            # a refused element / list: no effect, FALSE (NULL for the list itself)
+            new_items, oret = items, ("null" if t[0] == "lnew" else "F")
+            STATS["refused"] += 1
+            exp = "%s | %d %s 1" % (oret, len(new_items), ",".join(map(str, new_items)) if new_items else "-")
         if ca != exp:
             ofail = {"step": i, "op": ln, "c": ca, "oracle": exp, "why": "list state / return value",
                      "previous_items": items}
@@ -503,8 +593,8 @@ def shrink(exe, seq, is_list, still_fails):
 
 def c_fails(exe, seq, is_list):
     res, crash = run_block(exe, [seq])
-    if crash:
-        return True
+    if crash and crash.get("sequence_index") is not None:
+        return True                      # an operation was not answered (a leak report at exit is not C19's matter)
     j = judge_list_seq if is_list else judge_buffer_seq
     o, _, _ = j(seq, res[0], res[0])
     return o is not None
@@ -512,15 +602,18 @@ def c_fails(exe, seq, is_list):
 
 def work_chunk(args):
     """one worker: generate `n` sequences of stream `stream`, run C and model, judge.  Returns a dict."""
-    harness, driver, seed, stream, n, list_share = args
+    harness, driver, seed, stream, n, list_share = args[:6]
+    inject = len(args) > 6 and args[6]
     r = Rng(seed, stream)
     seqs, kinds = [], []
     for _ in range(n):
         if r.below(100) < list_share:
-            seqs.append(gen_list_seq(r)); kinds.append(True)
+            seqs.append(gen_list_seq(r, inject)); kinds.append(True)
         else:
-            seqs.append(gen_buffer_seq(r)); kinds.append(False)
-    return judge_block(harness, driver, seqs, kinds, stream)
+            seqs.append(gen_buffer_seq(r, inject)); kinds.append(False)
+    res = judge_block(harness, driver, seqs, kinds, stream)
+    res["injected"] = inject
+    return res
 
 
 def judge_block(harness, driver, seqs, kinds, stream=0):
@@ -528,13 +621,20 @@ def judge_block(harness, driver, seqs, kinds, stream=0):
     m_res, m_crash = run_block(driver, seqs)
     out = {"stream": stream, "sequences": len(seqs), "ops": sum(len(s) for s in seqs), "oracle_failures": [],
            "corr_failures": [], "nontrivial": 0, "opcount": {}, "samples": [], "spec_pairs": [], "model_crash": m_crash}
-    if c_crash and c_crash.get("sequence_index") is not None:
+    crash_at = {}
+    base = 0
+    while c_crash and c_crash.get("sequence_index") is not None:
         # rerun the sequences after the crashing one in a fresh process so that they are judged too
-        k = c_crash["sequence_index"]
-        rest, _ = run_block(harness, seqs[k + 1:]) if k + 1 < len(seqs) else ([], None)
+        k = base + c_crash["sequence_index"]
+        crash_at[k] = c_crash
+        if k + 1 >= len(seqs):
+            break
+        rest, c_crash = run_block(harness, seqs[k + 1:])
         c_res = c_res[:k + 1] + rest
-        while len(c_res) < len(seqs):
-            c_res.append([])
+        base = k + 1
+    while len(c_res) < len(seqs):
+        c_res.append([])
+    STATS["refused"] = STATS["partial"] = 0
     for idx, (seq, is_list) in enumerate(zip(seqs, kinds)):
         ca = c_res[idx] if idx < len(c_res) else []
         ma = m_res[idx] if idx < len(m_res) else []
@@ -542,12 +642,15 @@ def judge_block(harness, driver, seqs, kinds, stream=0):
         if nmut > 0:
             out["nontrivial"] += 1
         for ln in seq:
-            k = ln.split(" ", 1)[0]
+            pf, tk = split_prefix(ln)
+            k = tk[0]
             out["opcount"][k] = out["opcount"].get(k, 0) + 1
+            if pf:
+                out["refusal_plans"] = out.get("refusal_plans", 0) + 1
         if o:
-            if c_crash and c_crash.get("sequence_index") == idx:
-                o["sanitizer_or_crash"] = c_crash["stderr"]
-                o["rc"] = c_crash["rc"]
+            if idx in crash_at:
+                o["sanitizer_or_crash"] = crash_at[idx]["stderr"]
+                o["rc"] = crash_at[idx]["rc"]
             out["oracle_failures"].append({"kind": "list" if is_list else "buffer", "lines": seq, **o})
         if c:
             out["corr_failures"].append({"kind": "list" if is_list else "buffer", "lines": seq, **c})
@@ -560,6 +663,9 @@ def judge_block(harness, driver, seqs, kinds, stream=0):
                 pa = parse_answer(a)
                 if pa is None:
                     break
-                out["spec_pairs"].append(("S %s %d %s" % (hx(st[0]), 1 if st[1] else 0, ln), a))
+                if split_prefix(ln)[0] is None:
+                    out["spec_pairs"].append(("S %s %d %s" % (hx(st[0]), 1 if st[1] else 0, ln), a))
                 st = (unhx(pa["hex"]), pa["static"] == "1")
+    out["refused"] = STATS["refused"]
+    out["partial"] = STATS["partial"]
     return out
